@@ -41,7 +41,8 @@ NAMESETS = [
     [("7.001", "7"), ("7.002", "7"), ("7.003", "7")],        # three groups on one label
 ]
 NAMES = NAMESETS[1]
-KINDS = ["normal", "left", "right", "custom", "deletion"]
+KINDS = ["normal", "left", "right", "custom", "deletion", "custom2"]
+CUSTOM = {"custom": ["e2", "i2"], "custom2": ["e1", "i1"]}  # deleted regions (equal size)
 UNIVERSE = [(15, "SNP2"), (50, "SNP4"), (80, "INS1")]
 
 
@@ -59,7 +60,7 @@ def configs(tier):
     K = 3 if tier == "thorough" else 2
     # partition by the kind of the first allele (parallelism)
     for k0 in range(len(KINDS)):
-        for ns in range(3):
+        for ns in (range(3) if KINDS[k0] != "custom2" else (1,)):
             c.append({"kind": "gen", "K": K, "first": k0, "names": ns})
     # three alleles that collide on one shown name (renaming :2, :3), normal structures
     c.append({"kind": "gen", "K": 3, "first": 0, "names": 3, "normal_only": True})
@@ -109,8 +110,8 @@ def table_yaml(y0, table, flags, names=None):
             muts = [["GAP", "i1-"]] + muts
         elif kind == "right":
             muts = [["GAP", "e3+"]] + muts
-        elif kind == "custom":
-            muts = [["GA", "deletion:e2,i2"]] + muts
+        elif kind in CUSTOM:
+            muts = [["GA", "deletion:" + ",".join(CUSTOM[kind])]] + muts
         elif kind == "deletion":
             muts = [["GA", "deletion"]]
         d = {"mutations": muts}
@@ -367,6 +368,19 @@ def check_table(y0, table, fl, ns=1):
             fl[i] for i in range(3) if mask & (1 << i))))
     for b, g in genes.items():
         probs += invariants(g, db)
+        # an allele written with a custom deletion has a structure in which exactly the
+        # declared regions of the gene are missing
+        for (name, label), (mask, kind) in zip(NAMES, table):
+            if kind not in CUSTOM:
+                continue
+            target = g.removed.get(name, name)
+            own = [a for an, a in g.alleles.items() if target in a.minors and "#" not in an]
+            for a in own:
+                gone = sorted(r for r, v in g.cn_configs[a.cn_config].cn[0].items() if v == 0)
+                if gone != sorted(CUSTOM[kind]):
+                    probs.append(("custom-structure",
+                                  f"allele {name} (deletion of {CUSTOM[kind]}) is filed "
+                                  f"under a structure that lacks {gone}"))
     s19, s38 = catalogue_signature(genes["hg19"]), catalogue_signature(genes["hg38"])
     if not same_catalogue(s19, s38):
         d = [k for k in set(s19[0]) | set(s38[0]) if s19[0].get(k) != s38[0].get(k)]
